@@ -144,6 +144,15 @@ type variant struct {
 	Touch []int32 `json:"touch,omitempty"`
 	// ProbeFirst: after the last call these numbers are probed (fd_tell, fd_filestat_get) before anything else.
 	ProbeFirst []int32 `json:"probe_first,omitempty"`
+	// ProbeNames: additional names looked up (path_filestat_get through fd 3) by the post-history probe.
+	ProbeNames []string `json:"probe_names,omitempty"`
+	// DirBuf: buf_len of the priming / probing fd_readdir calls (default 512).
+	DirBuf uint32 `json:"dir_buf,omitempty"`
+}
+
+func (v variant) with(base variant) variant {
+	v.ProbeNames, v.DirBuf = base.ProbeNames, base.DirBuf
+	return v
 }
 
 func (v variant) plain() bool { return !v.Primed && len(v.Touch) == 0 && len(v.ProbeFirst) == 0 }
@@ -263,6 +272,10 @@ func histString(h []Op) string {
 func (w *worker) execute(hist []Op, verbose bool, v variant) (r execResult) {
 	primed := v.Primed
 	r.v = v
+	dirBuf := uint32(512)
+	if v.DirBuf != 0 {
+		dirBuf = v.DirBuf
+	}
 	w.seq++
 	dir := filepath.Join(w.dir, fmt.Sprintf("t%d", w.seq))
 	populate(dir)
@@ -283,7 +296,7 @@ func (w *worker) execute(hist []Op, verbose bool, v variant) (r execResult) {
 		if primed && i == len(hist)-1 {
 			for fd := int32(3); fd <= 7; fd++ {
 				if e := m.fds[fd]; e != nil && e.ino.dir {
-					po := Op{K: "fd_readdir", Fd: fd, Len: 512}
+					po := Op{K: "fd_readdir", Fd: fd, Len: dirBuf}
 					exp := m.apply(&po)
 					res := x.do(&po)
 					say("  prime:  %-44s -> errno=%d bufused=%d | model: %s", po.String(), res.Errno, res.N, expString(exp))
@@ -350,10 +363,10 @@ func (w *worker) execute(hist []Op, verbose bool, v variant) (r execResult) {
 	for fd := int32(3); fd <= 7; fd++ {
 		probes = append(probes, Op{K: "fd_tell", Fd: fd}, Op{K: "fd_filestat_get", Fd: fd})
 		if e := m.fds[fd]; e != nil && e.ino.dir {
-			probes = append(probes, Op{K: "fd_readdir", Fd: fd, Len: 512})
+			probes = append(probes, Op{K: "fd_readdir", Fd: fd, Len: dirBuf})
 		}
 	}
-	for _, n := range names {
+	for _, n := range append(append([]string{}, names...), v.ProbeNames...) {
 		probes = append(probes, Op{K: "path_filestat_get", Fd: 3, P: n})
 	}
 	{
@@ -435,18 +448,19 @@ type bfsStats struct {
 	exhaustive                                              bool
 }
 
-func fsBFS(run *fw.Run, depth int, deadline time.Time, outcomes *fw.Counter, samples *fw.Sampler) bfsStats {
-	alpha := alphabet()
+// fsBFS explores all histories over alpha up to depth. base carries probe options used by every
+// execution; sigPrefix/kindTag distinguish the families (part 1: "", "fs"; awkward names: "names:", "fs").
+func fsBFS(run *fw.Run, alpha []Op, base variant, sigPrefix string, depth int, deadline time.Time, outcomes *fw.Counter, samples *fw.Sampler) bfsStats {
 	var st bfsStats
 	st.exhaustive = true
 	seen := map[hkey]bool{}
 	// the initial state is itself validated (probes + host tree)
 	w0 := newWorker(999)
-	r0 := w0.execute(nil, false, variant{})
+	r0 := w0.execute(nil, false, base)
 	w0.rt.rt.Close(ctx)
 	if r0.mism != nil {
 		// the empty history already disagrees: nothing to explore from
-		run.Violation(r0.mism.Sig, r0.mism.What, map[string]any{"kind": "fs", "history": []Op{}})
+		run.Violation(sigPrefix+r0.mism.Sig, r0.mism.What, map[string]any{"kind": "fs", "history": []Op{}, "variant": base})
 		outcomes.Inc("initial:mismatch")
 		st.exhaustive = false
 		return st
@@ -478,17 +492,18 @@ func fsBFS(run *fw.Run, depth int, deadline time.Time, outcomes *fw.Counter, sam
 					hist = append(hist, alpha[oi])
 				}
 				hist = append(hist, alpha[i%len(alpha)])
-				r := w.execute(hist, false, variant{})
+				r := w.execute(hist, false, base)
 				if r.mism == nil && !r.outside {
 					// further executions of the same history: directory-primed and descriptor-table variants
 					var vs []variant
 					if changesDirectory(&hist[len(hist)-1]) {
-						vs = append(vs, variant{Primed: true})
+						vs = append(vs, variant{Primed: true}.with(base))
 						r.primedRun = true
 					}
 					tv := tableVariants(hist)
 					r.tableRuns = len(tv)
 					for _, v := range append(vs, tv...) {
+						v = v.with(base)
 						r2 := w.execute(hist, false, v)
 						if r2.mism != nil {
 							r2.primedRun, r2.tableRuns, r2.outcome = r.primedRun, r.tableRuns, r.outcome
@@ -533,7 +548,7 @@ func fsBFS(run *fw.Run, depth int, deadline time.Time, outcomes *fw.Counter, sam
 				switch {
 				case r.mism != nil:
 					st.pruned++
-					run.Violation(r.mism.Sig, r.mism.What, map[string]any{"kind": "fs", "history": hist(), "variant": r.v})
+					run.Violation(sigPrefix+r.mism.Sig, r.mism.What, map[string]any{"kind": "fs", "history": hist(), "variant": r.v})
 				case r.outside:
 					st.outside++
 				default:
@@ -578,7 +593,8 @@ func main() {
 	outcomes := fw.NewCounter()
 	samples := fw.NewSampler(16)
 	t0 := time.Now()
-	st := fsBFS(run, depth, deadline, outcomes, samples)
+	st := fsBFS(run, alphabet(), variant{}, "", depth, deadline, outcomes, samples)
+	nm := namesExplore(run, outcomes, samples)
 	wd := wideExplore(run, outcomes)
 	t1 := time.Now()
 	rd := readdirExplore(run, outcomes, samples)
@@ -591,8 +607,8 @@ func main() {
 		depths = append(depths, l)
 	}
 	run.Finish(fw.Coverage{
-		Evaluations:     st.transitions + st.primed + st.tableRuns + wd.words + rd.sequences + rd.mutated,
-		DistinctNontriv: st.states - 1 + wd.states + rd.sequences + rd.mutated,
+		Evaluations:     st.transitions + st.primed + st.tableRuns + nm.executions + wd.words + rd.sequences + rd.mutated,
+		DistinctNontriv: st.states - 1 + nm.states + wd.states + rd.sequences + rd.mutated,
 		States:          st.states, Transitions: st.transitions, TracesValidated: st.transitions,
 		Rule:    "fs: distinct canonical reference-model states (tree+contents, descriptor table with inode identity, offsets, append/write flags) other than the initial one, each reached by executing its shortest history on the real WASI implementation; readdir: distinct (directory, buf_len, cookie sequence) call sequences, each executed on a fresh directory descriptor; wide-table: distinct sets of open descriptor numbers reached from the N-descriptor tables; readdir-mutation: distinct (directory, buf_len, traversal prefix, mutation) cases",
 		Samples: samples.List(), Exhaustive: st.exhaustive && rd.exhaustive, Outcomes: outcomes.Map(),
@@ -603,6 +619,7 @@ func main() {
 			"readdir":    rd.bounds, "fs_host_filesystem": fastFS, "readdir_host_filesystem": tmpFS,
 		},
 		Extra: map[string]any{
+			"awkward_names_executions": nm.executions, "awkward_names_states": nm.states,
 			"wide_table_words": wd.words, "wide_table_states": wd.states,
 			"fs_transitions_also_executed_primed": st.primed, "fs_descriptor_table_variant_executions": st.tableRuns, "readdir_mutation_cases": rd.mutated,
 			"fs_transitions_outside_model": st.outside, "fs_transitions_with_mismatch": st.pruned,
